@@ -149,7 +149,10 @@ class Interp:
     def named(self, name, n):
         """a harness input: symbolic in exploration, a constant in replay / differential runs"""
         if self.concrete_inputs is not None:
-            if name not in self.concrete_inputs: raise Unsupported('no concrete value for input ' + name)
+            if name not in self.concrete_inputs:
+                # replay of a stored counterexample on a tree where the path asks for an input the counterexample did not need: 0 (stated in the replay output)
+                if getattr(self, 'default_missing', None) is None: raise Unsupported('no concrete value for input ' + name)
+                self.concrete_inputs[name] = self.default_missing
             v = self.concrete_inputs[name] & mask(n); self.inputs[name] = (v, n); return v
         if self.mode == 'BV': s = Sym(z3.BitVec(name, n), n)
         else:
